@@ -1130,7 +1130,7 @@ def world_cli(w, argv, stdin=None):
 
 # --------------------------------------------------------------------------- generated histories
 
-HISTORY_OPS = ['edit_module', 'user_edit_output', 'delete_output', 'deploy', 'overlay_edit', 'remove_manifest',
+HISTORY_OPS = ['edit_module', 'user_edit_output', 'delete_output', 'deploy', 'overlay_edit', 'remove_manifest', 'legacy_manifests',
                'rollback', 'bootstrap', 'dirty', 'record', 'restore', 'rebase', 'lock']
 
 def _deployed_files(w):
@@ -1147,7 +1147,7 @@ def _deployed_files(w):
                 out.append(os.path.join(dp, fn))
     return sorted(set(out))
 
-def perturb(w, rng, steps):
+def perturb(w, rng, steps, last=None):
     """Apply a random history to a built world (then re-freeze it).  Returns the list of steps taken.
     Steps go through the real CLI where the user would use it; a step that fails is recorded and skipped."""
     sb = w.sb
@@ -1157,8 +1157,9 @@ def perturb(w, rng, steps):
         try: return p.returncode, json.loads(p.stdout.decode('utf-8', 'replace'))
         except Exception: return p.returncode, None
     has_git = os.path.isdir(os.path.join(sb.repo, '.git'))
-    for _ in range(steps):
+    for k_ in range(steps):
         op = rng.choice(HISTORY_OPS)
+        if last is not None and k_ == steps - 1: op = last
         note = ''
         try:
             if op == 'edit_module':
@@ -1201,6 +1202,17 @@ def perturb(w, rng, steps):
                       if fn.startswith('.agentpack.manifest.') and 'aphome' not in os.path.relpath(dp, sb.root).split(os.sep)[:1] and '.pristine' not in dp]
                 if ms:
                     m = rng.choice(sorted(ms)); os.remove(m); note = os.path.relpath(m, sb.root)
+            elif op == 'legacy_manifests':
+                # the roots keep the manifests an older agentpack wrote: same content under the legacy shared name
+                n = 0
+                for dp, dns, fns in os.walk(sb.root):
+                    if 'aphome' in os.path.relpath(dp, sb.root).split(os.sep)[:1] or '.pristine' in dp: continue
+                    for fn in fns:
+                        if fn.startswith('.agentpack.manifest.') and fn.endswith('.json') and fn != '.agentpack.manifest.json':
+                            leg = os.path.join(dp, '.agentpack.manifest.json')
+                            if not os.path.exists(leg):
+                                os.rename(os.path.join(dp, fn), leg); n += 1
+                note = 'renamed=%d' % n
             elif op == 'rollback':
                 snaps = w.info.get('snapshots') or []
                 if snaps:
